@@ -718,10 +718,10 @@ Proof. intros H. split; [apply send_msg_retrans_outok|apply send_msg_retrans_mon
 (* the replay loop sends gap fills and PossDupFlag=Y copies only: nothing is journaled, nothing is numbered *)
 Lemma replay_loop_om c rows : forall a b, om (replay_loop c rows a b).
 Proof.
-  induction rows as [|r rows IH]; intros a b; cbn [replay_loop]; [apply om_ret|].
+  induction rows as [|r rows IH]; intros a b; cbn [replay_loop]; cbv zeta; [apply om_ret|].
   apply om_bind_lift. intros n _. apply om_bind_lift. intros t _.
   destruct (_ || _); [apply IH|].
-  apply om_bind; [destruct (a <? b); [apply om_retrans, gap_fill_skip|apply om_ret]|intros _].
+  cbv zeta. apply om_bind; [destruct (_ <? _); [apply om_retrans, gap_fill_skip|apply om_ret]|intros _].
   apply om_bind_lift. intros m1 H1. apply om_bind_lift. intros v52 _.
   apply om_bind_lift. intros m2 H2. apply om_bind_lift. intros m3 H3.
   apply om_bind; [|intros _; apply IH].
@@ -737,9 +737,9 @@ Qed.
 
 Lemma replay_loop_keeps_alive c rows : forall a b, keeps alive (replay_loop c rows a b).
 Proof.
-  induction rows as [|r rows IH]; intros a b; cbn [replay_loop]; [keeps_tac|].
+  induction rows as [|r rows IH]; intros a b; cbn [replay_loop]; cbv zeta; [keeps_tac|].
   keeps_step; [keeps_tac|]. keeps_step; [keeps_tac|]. destruct (_ || _); [apply IH|].
-  keeps_step; [destruct (a <? b); [apply send_msg_keeps_alive|keeps_tac]|].
+  cbv zeta. keeps_step; [destruct (_ <? _); [apply send_msg_keeps_alive|keeps_tac]|].
   keeps_step; [keeps_tac|]. keeps_step; [keeps_tac|]. keeps_step; [keeps_tac|]. keeps_step; [keeps_tac|].
   keeps_step; [apply send_msg_keeps_alive|apply IH].
 Qed.
